@@ -17,6 +17,7 @@ import (
 	"os"
 	"sort"
 	"strings"
+	"sync/atomic"
 	"time"
 
 	"github.com/glebziz/fs_db"
@@ -76,6 +77,8 @@ var (
 )
 
 type runner struct {
+	at       atomic.Int64 // the step being executed (read by the watchdog)
+	hung     bool         // an execution never came back: this process must not be reused
 	m        *drv.Mapping
 	mode     string
 	base     string
@@ -150,6 +153,7 @@ func (r *runner) run(steps []step, skip func(s step) bool, stopAfter int) (out o
 			continue
 		}
 		variant++
+		r.at.Store(int64(i))
 		var opErr error
 		got := ""
 		// callers hand every call its own context and give it up when the call has returned (a request handler
@@ -374,6 +378,28 @@ func (r *runner) run(steps []step, skip func(s step) bool, stopAfter int) (out o
 	return
 }
 
+// guarded runs the steps under a watchdog: an operation of the real code that does not return within a minute is a
+// hang (every operation of these behaviours takes milliseconds). The stuck goroutine is left behind.
+func (r *runner) guarded(steps []step, skip func(s step) bool, stopAfter int) outcome {
+	ch := make(chan outcome, 1)
+	r.at.Store(-1)
+	go func() { ch <- r.run(steps, skip, stopAfter) }()
+	select {
+	case o := <-ch:
+		return o
+	case <-time.After(60 * time.Second):
+		r.hung = true
+		i := int(r.at.Load())
+		op := "open"
+		if i >= 0 && i < len(steps) {
+			op = fmt.Sprintf("%s %+v", steps[i].Op, steps[i].A)
+		} else {
+			i = 0
+		}
+		return outcome{mm: &mismatch{Step: i, Kind: "hang", Detail: fmt.Sprintf("step %d (%s) has not returned after 60 s", i, op)}}
+	}
+}
+
 func tagName(t int) string {
 	if t == 0 {
 		return "NotFound"
@@ -407,6 +433,15 @@ func owner(steps []step, mm *mismatch) string {
 	}
 	if mm.Kind == "collect" {
 		return "C18"
+	}
+	if mm.Kind == "hang" {
+		// "no operation deadlocks" (C06), unless something more specific explains it (late operations are tried by ablation)
+		for i := 0; i <= mm.Step && i < len(steps); i++ {
+			if lateOps[steps[i].Op] {
+				return "C13"
+			}
+		}
+		return "C06"
 	}
 	if mm.Kind == "reader" {
 		// what came between opening and finishing decides: the collector (C09), the end of a transaction (C03), else C01
@@ -450,7 +485,7 @@ func owner(steps []step, mm *mismatch) string {
 
 func (r *runner) judge(id int, steps []step) result {
 	res := result{Id: id, Mode: r.mode, Steps: len(steps)}
-	out := r.run(steps, nil, -1)
+	out := r.guarded(steps, nil, -1)
 	res.Drift = out.drift
 	res.Known = out.known
 	if out.err != nil {
@@ -478,14 +513,14 @@ func (r *runner) judge(id int, steps []step) result {
 		return res
 	}
 	if hasGC && out.mm.Kind != "files" {
-		o2 := r.run(steps, func(s step) bool { return s.Op == "gc" }, out.mm.Step)
+		o2 := r.guarded(steps, func(s step) bool { return s.Op == "gc" }, out.mm.Step)
 		if o2.err == nil && o2.mm == nil {
 			res.Owner, res.Ablated = "C09", "gc"
 			return res
 		}
 	}
 	if hasLate && out.mm.Kind != "files" {
-		o3 := r.run(steps, func(s step) bool { return s.Op == "gc" || lateOps[s.Op] }, out.mm.Step)
+		o3 := r.guarded(steps, func(s step) bool { return s.Op == "gc" || lateOps[s.Op] }, out.mm.Step)
 		if o3.err == nil && o3.mm == nil {
 			res.Owner, res.Ablated = "C13", "late"
 			return res
@@ -549,6 +584,11 @@ func main() {
 				res.Owner = "C11"
 			}
 			enc.Encode(res)
+			if r.hung {
+				// blocked goroutines of the real code are left behind: ask for a fresh process for the rest
+				w.Flush()
+				os.Exit(3)
+			}
 		}
 	}
 	w.Flush()
